@@ -67,3 +67,24 @@ Fixpoint select (fuel : nat) (t : tree) (p : list step) : list addr :=
                              end) (step_matches s (kids_of t))
       end
   end.
+
+(* ---- single faults: where can errors appear? ------------------------------------------------------------------
+   A validator reports an error at a node when the check of that node fails; the check may look at the whole subtree of
+   the node (content model, attribute set, value, identity scopes below it) but at nothing outside it. *)
+Fixpoint replace_kid (f : tree -> tree) (l : list tree) (i : nat) : list tree :=
+  match l, i with
+  | [], _ => []
+  | c :: r, 0 => f c :: r
+  | c :: r, S j => c :: replace_kid f r j
+  end.
+
+(* the document with the subtree at address a replaced by s (the damaged node) *)
+Fixpoint replace_at (t : tree) (a : addr) (s : tree) : tree :=
+  match a with
+  | [] => s
+  | i :: r => Node (tag_of t) (replace_kid (fun c => replace_at c r s) (kids_of t) i)
+  end.
+
+Definition err_at (chk : tree -> bool) (t : tree) (a : addr) : Prop :=
+  exists s, subtree t a = Some s /\ chk s = false.
+Definition prefix (x y : addr) : Prop := exists z, y = x ++ z.
